@@ -425,7 +425,11 @@ def rule_nmifloor(ctx):
 
 
 
+
+
 RULES = [
+    ("C16.AMIBOUNDS", 1, common.shared("c06", "rule_amibounds", "C16.AMIBOUNDS")),
+    ("C16.FLOORDIV", 1, common.rule_floordiv("C16.FLOORDIV", ("segment.py", "util.py"))),
     ("C16.NARROWDTYPE", 3, common.rule_narrowdtype("C16.NARROWDTYPE", ("segment.py", "util.py"))),
     ("C16.HELPERDEFAULTS", 3, common.rule_helperdefaults("C16.HELPERDEFAULTS")),
     ("C16.ARIFORM", 1, rule_ariform),
